@@ -5,6 +5,7 @@ import (
 	"go/constant"
 	"go/token"
 	"go/types"
+	"reflect"
 	"strings"
 )
 
@@ -30,6 +31,16 @@ func (fx *fctx) callExternal(st *State, fn *types.Func, recv *Value, recvExpr as
 		return fx.modelSortSlice(st, ce)
 	}
 	args = fx.evalArgs(st, ce, nil, sig)
+	// precall hooks on external calls see the source-level arguments (variadic arguments are not packed)
+	if !fx.spec && fx.con != nil && len(fx.con.Hooks) > 0 {
+		if ref, ok := fx.callIndex[ce]; ok && fx.hasHook("precall", ref.n, ref.name) {
+			var plain []*Value
+			for _, a := range ce.Args {
+				plain = append(plain, fx.eval(st, a))
+			}
+			fx.preCallHooks(st, ce, plain)
+		}
+	}
 	results := func() []*Value {
 		var out []*Value
 		for i := 0; i < sig.Results().Len(); i++ {
@@ -69,7 +80,20 @@ func (fx *fctx) callExternal(st *State, fn *types.Func, recv *Value, recvExpr as
 			}
 		}
 		return r
-	case "fmt.Sprint", "strings.Join", "strings.Repeat", "strings.TrimSpace", "strings.TrimRightFunc", "strings.ToLower":
+	case "strings.Repeat":
+		// len(Repeat(s, n)) == len(s) * n for n >= 0 (a negative count panics: checked)
+		r := results()
+		if len(args) == 2 && args[0].Tm != nil && args[1].Tm != nil {
+			fx.check(st, "panic", "strings.Repeat:count", ts.Ge(args[1].Tm, ts.Int(0)), ce, "strings.Repeat with a negative count panics")
+			sl := ts.App("str_len", SInt, args[0].Tm)
+			if sl2, ok := e.strLitLen(args[0].Tm); ok {
+				sl = ts.Int(int64(sl2))
+			}
+			st.assume(ts.Eq(ts.App("str_len", SInt, r[0].Tm), ts.Mul(sl, args[1].Tm)))
+			e.Assumptions["strings.Repeat(s, n) has length len(s)*n"] = true
+		}
+		return r
+	case "fmt.Sprint", "strings.Join", "strings.TrimSpace", "strings.TrimRightFunc", "strings.ToLower":
 		r := results()
 		return r
 	case "unicode/utf8.DecodeRune", "unicode/utf8.DecodeRuneInString":
@@ -136,8 +160,41 @@ func (fx *fctx) callExternal(st *State, fn *types.Func, recv *Value, recvExpr as
 		// writes through the target pointer
 		res := results()
 		if len(ce.Args) == 2 {
-			fx.havocPointee(st, ce.Args[1], args[1])
+			var doc *Term
+			if args[0] != nil && args[0].Sl != nil {
+				doc = ts.App("json_doc", SInt, args[0].Sl.Ptr, args[0].Sl.Len)
+			}
+			errNil := ts.Eq(res[0].Tm, ts.App("any_nil", SAny))
+			fx.havocPointeeWith(st, ce.Args[1], args[1], func(nv *Value, elem types.Type) {
+				if doc != nil {
+					fx.jsonLeafFacts(st, nv, elem, "", doc, errNil)
+				}
+			})
 			fx.assumeUnmarshaler(st, ce.Args[1], args[1], res[0])
+		}
+		return res
+	case "encoding/json.Marshal":
+		res := results()
+		if len(res) == 2 && res[0].Sl != nil && len(args) == 1 && args[0] != nil {
+			doc := ts.App("json_doc", SInt, res[0].Sl.Ptr, res[0].Sl.Len)
+			errNil := ts.Eq(res[1].Tm, ts.App("any_nil", SAny))
+			src := args[0]
+			srcT := e.P.Info.TypeOf(ce.Args[0])
+			// Marshal takes `any`: recover the static type and value of the argument expression
+			if pt, ok := srcT.Underlying().(*types.Pointer); ok {
+				if _, isStruct := pt.Elem().Underlying().(*types.Struct); isStruct && !e.isOpaqueStruct(pt.Elem()) {
+					raw := fx.eval(st, ce.Args[0])
+					if raw != nil && raw.Tm != nil && raw.Tm.Sort == SInt {
+						src = e.loadCell(st, "", raw.Tm, pt.Elem())
+						srcT = pt.Elem()
+					}
+				}
+			} else if _, isStruct := srcT.Underlying().(*types.Struct); isStruct {
+				src = fx.eval(st, ce.Args[0])
+			}
+			if src != nil && src.St != nil {
+				fx.jsonLeafFacts(st, src, srcT, "", doc, errNil)
+			}
 		}
 		return res
 	}
@@ -170,6 +227,67 @@ func (e *Engine) tagOfName(s string) int {
 
 // havocPointee forgets the value a pointer argument points to (external writes through it).
 func (fx *fctx) havocPointee(st *State, arg ast.Expr, val *Value) {
+	fx.havocPointeeWith(st, arg, val, nil)
+}
+
+// jsonLeafFacts: the assumed reading of encoding/json.  For every leaf (integer, float, string, or interface holding
+// one of them) at tag path π of struct value v:  err == nil ==> leaf == json_<sort>(doc, π).  Marshal and Unmarshal
+// get the same facts, so a decoder that reads a leaf with the type the encoder wrote gets the value back.
+func (fx *fctx) jsonLeafFacts(st *State, v *Value, t types.Type, prefix string, doc, errNil *Term) {
+	e := fx.e
+	ts := e.ts
+	sty, ok := t.Underlying().(*types.Struct)
+	if !ok || v == nil || v.St == nil {
+		return
+	}
+	e.Assumptions["encoding/json document model: at every tag path Unmarshal reads the value Marshal wrote there (integers, finite floats, valid UTF-8 strings); the meaning of a byte buffer depends on the slice identity only (buffers are not mutated between encode and decode)"] = true
+	for i := 0; i < sty.NumFields(); i++ {
+		f := sty.Field(i)
+		tag := reflect.StructTag(sty.Tag(i)).Get("json")
+		name := strings.Split(tag, ",")[0]
+		if name == "-" {
+			continue
+		}
+		if name == "" {
+			name = f.Name()
+		}
+		path := name
+		if prefix != "" {
+			path = prefix + "." + name
+		}
+		fv := v.St[f.Name()]
+		if fv == nil {
+			continue
+		}
+		pid := ts.Int(int64(e.tagOfName("jsonpath:" + path)))
+		switch u := f.Type().Underlying().(type) {
+		case *types.Struct:
+			fx.jsonLeafFacts(st, fv, f.Type(), path, doc, errNil)
+		case *types.Basic:
+			if fv.Tm == nil {
+				continue
+			}
+			switch {
+			case u.Info()&types.IsInteger != 0:
+				st.assume(ts.Implies(errNil, ts.Eq(fv.Tm, ts.App("json_int", SInt, doc, pid))))
+			case u.Info()&types.IsFloat != 0:
+				st.assume(ts.Implies(errNil, ts.Eq(fv.Tm, ts.App("json_flt", SFlt, doc, pid))))
+			case u.Info()&types.IsString != 0:
+				st.assume(ts.Implies(errNil, ts.Eq(fv.Tm, ts.App("json_str", SStr, doc, pid))))
+			}
+		case *types.Interface:
+			if fv.Tm == nil || fv.Tm.Sort != SAny {
+				continue
+			}
+			a := fv.Tm
+			st.assume(ts.Implies(ts.And(errNil, ts.App("(_ is any_int)", SBool, a)), ts.Eq(ts.App("any_ival", SInt, a), ts.App("json_int", SInt, doc, pid))))
+			st.assume(ts.Implies(ts.And(errNil, ts.App("(_ is any_flt)", SBool, a)), ts.Eq(ts.App("any_fval", SFlt, a), ts.App("json_flt", SFlt, doc, pid))))
+			st.assume(ts.Implies(ts.And(errNil, ts.App("(_ is any_str)", SBool, a)), ts.Eq(ts.App("any_sval", SStr, a), ts.App("json_str", SStr, doc, pid))))
+		}
+	}
+}
+
+func (fx *fctx) havocPointeeWith(st *State, arg ast.Expr, val *Value, constrain func(nv *Value, elem types.Type)) {
 	e := fx.e
 	t := e.P.Info.TypeOf(arg)
 	p, ok := t.Underlying().(*types.Pointer)
@@ -200,6 +318,9 @@ func (fx *fctx) havocPointee(st *State, arg ast.Expr, val *Value) {
 		}
 	}
 	mark(nv)
+	if constrain != nil {
+		constrain(nv, p.Elem())
+	}
 	e.storeCell(st, "", addr, p.Elem(), nv)
 }
 
